@@ -1369,6 +1369,24 @@ impl Machine {
         }
     }
 
+    /// When a dynamic predicate is re-entered by backtracking (`FirstOrNext::Next`),
+    /// the generation its call observed is kept in the last cell of the choice point.
+    /// It has to be restored before any clause stamp is examined: `cc` may have been
+    /// overwritten in the meantime by a nested call to a dynamic predicate.
+    #[inline(always)]
+    fn restore_dynamic_cc(&mut self) {
+        if let FirstOrNext::Next = self.machine_st.dynamic_mode {
+            let b = self.machine_st.b;
+            let n = self.machine_st.stack.index_or_frame(b).prelude.num_cells;
+
+            self.machine_st.cc = unsafe {
+                self.machine_st.stack[stack_loc!(OrFrame, b, n - 1)]
+                    .to_fixnum_or_cut_point_unchecked()
+            }
+            .get_num() as usize;
+        }
+    }
+
     pub(super) fn find_living_dynamic(
         &self,
         oi: u32,
@@ -1779,6 +1797,8 @@ impl Machine {
                             self.machine_st.cc = self.machine_st.global_clock;
                         }
 
+                        self.restore_dynamic_cc();
+
                         let p = self.machine_st.p;
 
                         match self.find_living_dynamic_else(p) {
@@ -1863,6 +1883,8 @@ impl Machine {
                         }
                     }
                     &Instruction::DynamicInternalElse(..) => {
+                        self.restore_dynamic_cc();
+
                         let p = self.machine_st.p;
 
                         match self.find_living_dynamic_else(p) {
@@ -3687,6 +3709,8 @@ impl Machine {
                                 }
                             }
                             IndexingLine::DynamicIndexedChoice(_) => {
+                                self.restore_dynamic_cc();
+
                                 let p = self.machine_st.p;
 
                                 match self
